@@ -620,6 +620,52 @@ def row_large_and_fractional(rng, workdir):
     return fx.finish_row(row)
 
 
+def row_permuted_genes(rng, workdir):
+    """two reference files listing the same genes in partly different order (two genes swapped, the
+    matrix columns following each file's own var): either refused, or accumulated by gene NAME"""
+    from cell_type_mapper.diff_exp.precompute_from_anndata import precompute_summary_stats_from_h5ad_list_and_tree
+    row = fx.new_row('cell_type_mapper.diff_exp.precompute_from_anndata.precompute_summary_stats_from_h5ad_list_and_tree'
+                     '#gene_order', FORM, '8-12 cells in two files, 3-4 genes, the second file with two genes swapped',
+                     ['files whose gene lists differ in order are refused or accumulated by gene name'])
+    for rep in range(4):
+        ds = make_dataset(rng, n_cells=rng.randint(8, 12))
+        n_g = len(ds['genes'])
+        if n_g < 3:
+            continue
+        ds['labels'] = [l if l is not None else ds['clusters'][0] for l in ds['labels']]
+        half = len(ds['names']) // 2
+        a, b = rng.sample(range(n_g), 2)
+        perm = list(range(n_g))
+        perm[a], perm[b] = perm[b], perm[a]
+        p1 = os.path.join(workdir, f'go{rep}_a.h5ad')
+        p2 = os.path.join(workdir, f'go{rep}_b.h5ad')
+        fx._write_h5ad(p1, ds['X'][:half], ds['names'][:half], ds['genes'], encoding='csr')
+        fx._write_h5ad(p2, ds['X'][half:][:, perm], ds['names'][half:], [ds['genes'][i] for i in perm], encoding='csr')
+        leaves = sorted(ds['clusters'])
+        groups = [(c, [i for i, l in enumerate(ds['labels']) if l == c]) for c in leaves]
+        want = oracle(ds, groups)
+        args = dict(case=rep, swapped_genes=[ds['genes'][a], ds['genes'][b]], n_cells=len(ds['names']))
+        row['cases'] += 1
+        out = os.path.join(workdir, f'go{rep}_stats.h5')
+        tmp = os.path.join(workdir, f'go{rep}_tmp')
+        os.makedirs(tmp)
+        try:
+            with fx.quiet():
+                precompute_summary_stats_from_h5ad_list_and_tree(
+                    data_path_list=[p1, p2], taxonomy_tree=_tree(tree_data(ds)), output_path=out,
+                    rows_at_a_time=3, normalization='raw', tmp_dir=tmp, n_processors=rng.choice([1, 2]))
+        except BaseException as e:   # noqa
+            if isinstance(e, (KeyboardInterrupt, SystemExit)):
+                raise
+            row['accepted'] += 1          # refused: fine
+            fx.note_case(row, ('refused', rep))
+            continue
+        row['accepted'] += 1
+        fx.note_case(row, ('accepted', rep))
+        compare_stats(row, read_stats(out), want, args, 'files with two genes swapped')
+    return fx.finish_row(row)
+
+
 def run(tier='quick', seed=0, jobs=1):
     rng = random.Random(1009 * (int(seed) + 1))
     quick = tier != 'thorough'
@@ -636,4 +682,5 @@ def run(tier='quick', seed=0, jobs=1):
             rows.append(row_merge(rng, d, n_cases=40 if quick else 400, deadline=t0 + budget))
             rows.append(row_no_labelled_cell(rng, d, deadline=t0 + budget + 5))
             rows.append(row_large_and_fractional(random.Random(77 + int(seed)), d))
+            rows.append(row_permuted_genes(random.Random(99 + int(seed)), d))
     return rows
